@@ -180,8 +180,7 @@ def random_feedback(rng, frac=False):
          "els": False, "label": rng.choice(["a", "b", "c"]), "flds": rng.choice(["f1", "f2", "f3"]),
          "correct": rng.choice(["T", "F", "N", "N"]), "valence": rng.choice(["neg", "neg", "zero", "pos", "none"]),
          "score": "none", "unscored": rng.random() < 0.15, "msg": "empty" if rng.random() < 0.15 else "text"}
-    if not f["trig"]:
-        f["els"] = rng.random() < 0.3
+    f["els"] = rng.random() < 0.3          # (carried by triggered feedback too, where it must not matter)
     r = rng.random()
     if r < 0.6:
         n = rng.randint(0, 40)
